@@ -181,7 +181,7 @@ func dropAnyMembers(t *IType, seen map[*StructDecl]bool) {
 func Triggers(p *Package) []Trigger {
 	var ts []Trigger
 	add := func(key, what string, repair func()) { ts = append(ts, Trigger{key, what, repair}) }
-	kws := GoKeywords()
+	kws := CleanVarNames()
 	if basicImportMissing(p) {
 		add("import_basic_missing", "package basic is referred to only through literal template text", func() {
 			it := p.Ifaces[0]
